@@ -53,6 +53,86 @@ fn first_difference(a: &GTree, b: &GTree, path: &mut Vec<usize>) -> Option<Strin
     None
 }
 
+fn strip_ns(t: &GTree) -> GTree {
+    GTree::new(t.v.clone(), t.kids.iter().filter(|k| !matches!(k.v, GValue::Namespace(..))).map(strip_ns).collect())
+}
+
+/// declarations of `a` are a sub-sequence of those of `b`, element by element
+fn decls_kept(a: &GTree, b: &GTree, ns_of_name: &dyn Fn(usize) -> usize) -> bool {
+    // an element in no namespace that itself declares a default namespace cannot be written as
+    // it is: that one declaration is expected to be replaced by xmlns=""
+    let own_default_contradiction = |k: &GTree| match (&a.v, &k.v) {
+        (GValue::Element(n), GValue::Namespace(0, ns)) => ns_of_name(*n) == 0 && *ns != 0,
+        _ => false,
+    };
+    let da: Vec<&GValue> = a.kids.iter().filter(|k| matches!(k.v, GValue::Namespace(..)) && !own_default_contradiction(k)).map(|k| &k.v).collect();
+    let db: Vec<&GValue> = b.kids.iter().filter(|k| matches!(k.v, GValue::Namespace(..))).map(|k| &k.v).collect();
+    if !da.iter().all(|d| db.contains(d)) {
+        return false;
+    }
+    let ka: Vec<&GTree> = a.kids.iter().filter(|k| k.is_normal()).collect();
+    let kb: Vec<&GTree> = b.kids.iter().filter(|k| k.is_normal()).collect();
+    ka.len() == kb.len() && ka.iter().zip(kb.iter()).all(|(x, y)| decls_kept(x, y, ns_of_name))
+}
+
+/// C10, second sentence: after create_missing_prefixes serialisation succeeds and reparses
+/// deep-equal, no name / attribute / content changed, no declaration lost, and a second call
+/// changes nothing.
+fn repair_case(sink: &mut Sink, xot: &mut Xot, vocab: &mut Vocab, root: xot::Node, original: &GTree, fragment: bool) {
+    let replay = vec![format!("tree {}", original.wire())];
+    match crate::common::guarded(|| xot.create_missing_prefixes(root)) {
+        None => {
+            sink.fail("C10", "C10:create_missing_prefixes-panics", "create_missing_prefixes panicked", &replay);
+            return;
+        }
+        Some(Err(e)) => {
+            if matches!(e, xot::Error::NoElementAtTopLevel) {
+                sink.stat("rt.repair-no-element");
+            } else {
+                sink.fail("C10", "C10:create_missing_prefixes-error", &format!("{:?}", e), &replay);
+            }
+            return;
+        }
+        Some(Ok(())) => {}
+    }
+    let repaired = read_tree(xot, vocab, root);
+    if strip_ns(&repaired) != strip_ns(original) {
+        sink.fail("C10", "C10:repair-changed-names-or-content", &format!("after repair {}", repaired.wire()), &replay);
+        return;
+    }
+    let names: Vec<usize> = vocab.names.iter().map(|n| n.1).collect();
+    let ns_of = move |n: usize| names[n];
+    if !decls_kept(original, &repaired, &ns_of) {
+        sink.fail("C10", "C10:repair-lost-or-altered-a-declaration", &format!("after repair {}", repaired.wire()), &replay);
+        return;
+    }
+    let s = match xot.to_string(root) {
+        Ok(s) => s,
+        Err(e) => {
+            sink.fail("C10", "C10:serialisation-fails-after-repair", &format!("{:?} ; after repair {}", e, repaired.wire()), &replay);
+            return;
+        }
+    };
+    let reparsed = if fragment { xot.parse_fragment(&s) } else { xot.parse(&s) };
+    match reparsed {
+        Err(e) => sink.fail("C10", "C10:repaired-output-rejected", &format!("{:?} for {:?}", e, s), &replay),
+        Ok(r2) => {
+            let back = read_tree(xot, vocab, r2);
+            if back != repaired {
+                let d = first_difference(&repaired, &back, &mut vec![]).unwrap_or("?".into());
+                sink.fail("C10", &format!("C10:repaired-tree-reparses-differently:{}", d.split('@').next().unwrap()), &format!("{} ; output {:?}", d, s), &replay);
+            } else {
+                sink.stat("rt.repair-ok");
+            }
+        }
+    }
+    // a second call changes nothing
+    let _ = xot.create_missing_prefixes(root);
+    if read_tree(xot, vocab, root) != repaired {
+        sink.fail("C10", "C10:second-repair-call-changes-the-tree", "create_missing_prefixes is not idempotent", &replay);
+    }
+}
+
 pub fn one_case(rng: &mut Rng, sink: &mut Sink, emit: bool) {
     let mut xot = Xot::new();
     let mut vocab = Vocab::standard(&mut xot);
@@ -92,7 +172,8 @@ pub fn one_case(rng: &mut Rng, sink: &mut Sink, emit: bool) {
     let s = match xot.to_string(root) {
         Ok(s) => s,
         Err(xot::Error::MissingPrefix(_)) => {
-            sink.stat("rt.skipped-missing-prefix");
+            sink.stat("rt.missing-prefix");
+            repair_case(sink, &mut xot, &mut vocab, root, &original, fragment);
             return;
         }
         Err(e) => {
